@@ -247,6 +247,30 @@ def scalar_corners(cv, rng, nrand=4, nlong=3, cap=None):
     return ks
 
 
+def frb_corners(cv, rng, per=1, variants=True):
+    """Scalars with STRUCTURE in the Frobenius basis: k = c0 + c1*lam + c2*lam^2 + c3*lam^3 (mod r) with lam = p mod r, the
+    eigenvalue of the untwist-Frobenius-twist map on G2 / of the Frobenius on GT, for every zero / non-zero pattern of
+    (c0..c3) - a random scalar has a zero sub-scalar with probability 2^-60 - small, negative and medium coefficients;
+    also k + r, k + 2r and k - r."""
+    n, lam = cv.n, cv.p % cv.n
+    out = []
+    for pat in range(1, 16):
+        for _ in range(per):
+            cs = []
+            for i in range(4):
+                if not (pat >> i) & 1:
+                    cs.append(0)
+                else:
+                    cs.append(rng.choice([1, 2, 3, -1, -3, rng.getrandbits(40) | 1, -(rng.getrandbits(61) | 1),
+                                          rng.getrandbits(62) | (1 << 61)]))
+            k = sum(c * pow(lam, i, n) for i, c in enumerate(cs)) % n
+            if k:
+                out.append(k)
+                if variants:
+                    out.append(rng.choice([k + n, k + 2 * n, k - n]))
+    return out
+
+
 def mul_point(cv, rng, ms, seeds=None):
     if seeds and rng.random() < 0.2:
         return seed_token("h", rng.choice(seeds), cv, cv.sys, rng, force=rng.choice(["a", "a", "z"]))
@@ -256,11 +280,13 @@ def mul_point(cv, rng, ms, seeds=None):
     return point_token(cv, m, cv.sys, rng, force=rng.choice(["a", "a", "a", "z"]))
 
 
-def mul_cases(cv, rng, ks_for, point_ms, seeds=None, ops=None, pre="ep2"):
+def mul_cases(cv, rng, ks_for, point_ms, seeds=None, ops=None, pre="ep2", frb=None):
     cases = []
     c = cv.spec
     for op in (ops or (MUL_VAR + MUL_FIX + ["ep2_mul_gen", "ep2_mul_dig"])):
         ks = ks_for(op)
+        if frb and not op.endswith("_mul_dig"):
+            ks = list(ks) + [k for k in frb if op != "ep2_mul_slide" or abs(k).bit_length() <= cv.fpb + 1]
         if op in MUL_FIX or op.endswith("_mul_fix"):
             pts = [mul_point(cv, rng, point_ms) for _ in range(2)]
             pts = [p.split("/")[0] for p in pts]       # tables are built from affine points
